@@ -151,6 +151,16 @@ def _build_direct(scsi, dev, op):
     return ReportLuns(dev.opcodes.REPORT_LUNS)
 
 
+def _raw_equals(got, handed):
+    if not isinstance(got, (bytes, bytearray, memoryview)):
+        return False
+    return bytes(got) == handed
+
+
+def _show(x):
+    return bytes(x).hex() if isinstance(x, (bytes, bytearray, memoryview)) else repr(x)[:80]
+
+
 def judge(dev, op, kind, val, deliveries, cmd, V, where):
     """Append violations to V for one executed command."""
     if not deliveries:
@@ -185,10 +195,10 @@ def judge(dev, op, kind, val, deliveries, cmd, V, where):
                               actual="returned normally"))
             else:
                 got = getattr(c, "raw_sense_data", None)
-                if got is None or bytes(got) != handed:
+                if not _raw_equals(got, handed):
                     V.append(dict(oracle="C07.raw-sense-not-attached", where=where, detail="raw=1",
                                   expected="raw_sense_data == %s or a CheckCondition" % handed.hex(),
-                                  actual="returned normally with raw_sense_data=%r" % (bytes(got).hex() if got is not None else None)))
+                                  actual="returned normally with raw_sense_data=%s" % _show(got)))
                 else:
                     WORLD.probe("cc_raw_returned_ok")
             return
@@ -206,7 +216,7 @@ def judge(dev, op, kind, val, deliveries, cmd, V, where):
                           expected="key/asc/ascq = %r" % ((exp["key"], exp["asc"], exp["ascq"]),), actual=repr(got)))
         else:
             WORLD.probe("cc_raised_ok")
-        if raw and cmd is not None and getattr(cmd, "raw_sense_data", None) is not None and bytes(cmd.raw_sense_data) != handed:
+        if raw and cmd is not None and getattr(cmd, "raw_sense_data", None) is not None and not _raw_equals(cmd.raw_sense_data, handed):
             V.append(dict(oracle="C07.raw-sense-modified", where=where, detail="raw=1",
                           expected=handed.hex(), actual=repr(cmd.raw_sense_data)[:120]))
         return
